@@ -450,6 +450,14 @@ def check_uniform(ctx, i):
                 same_set = ctx.close(g[np.lexsort((g[:, 1], g[:, 0]))], exp_grid[np.lexsort((exp_grid[:, 1], exp_grid[:, 0]))], 1e-12)
                 return "same point set, different order" if same_set else "different point set"
             ctx.check(ctx.close(g, exp_grid, 1e-12), "grid.formula", expected=exp_grid, got=g, hint=order_hint, **W)
+    # --- a per-pixel map that arrives as an Array2D living on ANOTHER frame (the map of a grid that was shifted with subtracted_from,
+    #     a map computed on one grid and reused on another): the sub-pixels are those of the SAMPLER's mask
+    if as_int is None and i % 3 == 0:
+        other = aa.Mask2D(mask=m.copy(), pixel_scales=scales, origin=(origin[0] + 0.37 * scales[0], origin[1] - 1.21 * scales[1]))
+        ok2, g2 = ctx.guarded("grid.exception", lambda: np.asarray(_np(aa.OverSamplerUniform(mask=mask, sub_size=aa.Array2D(values=sub.copy(), mask=other)).over_sampled_grid), dtype=float))
+        if ok2:
+            ctx.check(g2.shape == exp_grid.shape and ctx.close(g2, exp_grid, 1e-12), "grid.formula", sub_size_map_lives_on="a mask with another origin",
+                      expected=exp_grid, got=g2, **W)
     # --- index tables
     ok, sfs = ctx.guarded("index.exception", lambda: np.asarray(osr.slim_for_sub_slim))
     if ok:
